@@ -34,6 +34,7 @@ type Program struct {
 	ChanInv   map[string]*Contract // "Type.field" -> contract
 	FuncType  map[string]*Contract
 	Unbound   []string
+	Rebound   []string // contracts bound with the help of the shape snapshot (renumbered closures, renamed identifiers)
 	modsets   map[*ssa.Function]map[string]bool
 	U         *Universe
 	RepoDir   string
@@ -80,8 +81,14 @@ func fnPkg(fn *ssa.Function) *types.Package {
 
 // relName is the contract key: the SSA name relative to the function's own package.
 func relName(fn *ssa.Function) string {
+	if a, ok := nameAlias[fn]; ok {
+		return a // a renumbered closure keeps the name its contract (and everything that refers to it) uses
+	}
 	return fn.RelString(fnPkg(fn))
 }
+
+// nameAlias: closures bound to a contract under another ordinal (shape.go).
+var nameAlias = map[*ssa.Function]string{}
 
 func LoadProgram(repo string) (*Program, error) {
 	env := append(os.Environ(), "GOFLAGS=-mod=mod", "GOPROXY=off", "GOSUMDB=off", "GOTOOLCHAIN=local")
@@ -153,10 +160,31 @@ func LoadProgram(repo string) (*Program, error) {
 	for _, fn := range P.ModFuncs {
 		byRel[fnPkg(fn).Path()+"::"+relName(fn)] = fn
 	}
+	shapes := readShapes()
+	rebound := P.rebindClosures(byRel, shapes)
+	for key, fn := range rebound {
+		nameAlias[fn] = key[strings.Index(key, "::")+2:]
+	}
+	// a closure that now occupies a name given away gets a name of its own
+	for key := range rebound {
+		if other := byRel[key]; other != nil {
+			if _, aliased := nameAlias[other]; !aliased {
+				nameAlias[other] = other.RelString(fnPkg(other)) + "~"
+			}
+		}
+	}
 	for _, c := range P.Spec.Contracts {
 		switch c.Kind {
 		case "func":
 			fn := byRel[c.Pkg+"::"+c.Name]
+			if rf := rebound[c.Pkg+"::"+c.Name]; rf != nil {
+				fn = rf
+			}
+			if fn != nil && shapes != nil {
+				if old, ok := shapes[c.Pkg+"::"+c.Name]; ok {
+					P.renameForShape(c, fn, old)
+				}
+			}
 			if fn == nil {
 				P.Unbound = append(P.Unbound, c.Pkg+"::"+c.Name)
 				continue
@@ -834,25 +862,41 @@ func (P *Program) callMods(fn *ssa.Function, c *ssa.CallCommon, m map[string]boo
 		return
 	}
 	mc, _ := c.Value.(*ssa.MakeClosure)
+	var plain *ssa.Function // a function literal without captured variables is a plain function value
 	if mc == nil {
 		// a local variable assigned exactly one closure
 		if u, ok := c.Value.(*ssa.UnOp); ok {
 			if cell, ok := u.X.(*ssa.Alloc); ok {
 				var only *ssa.MakeClosure
+				var onlyFn *ssa.Function
 				n := 0
 				if refs := cell.Referrers(); refs != nil {
 					for _, r := range *refs {
 						if st, ok := r.(*ssa.Store); ok && st.Addr == ssa.Value(cell) {
 							n++
 							only, _ = st.Val.(*ssa.MakeClosure)
+							onlyFn, _ = st.Val.(*ssa.Function)
 						}
 					}
 				}
 				if n == 1 {
 					mc = only
+					plain = onlyFn
 				}
 			}
 		}
+	}
+	if plain != nil && plain != fn && fnInModule(plain) && plain.Blocks != nil {
+		if ct := P.Contracts[plain]; ct != nil && ct.HasMod {
+			for _, k := range P.declaredModKeys(plain, ct) {
+				m[k] = true
+			}
+			return
+		}
+		for k := range P.ModSet(plain) {
+			m[k] = true
+		}
+		return
 	}
 	if mc != nil {
 		if cf, ok := mc.Fn.(*ssa.Function); ok && cf != fn {
